@@ -57,7 +57,7 @@ def run(ctx):
     import concurrent.futures
     with concurrent.futures.ThreadPoolExecutor(max_workers=2) as pool:
         fut = pool.submit(cluster_model.run_all, ctx, "C05")
-        results = orswot_merge.run_all(ctx)
+        results = orswot_merge.run_all(ctx, prop="C05")
         glob = fut.result()
     cov = orswot_merge.judge(ctx, results, "C05")
     gcov = cluster_model.judge(ctx, glob, {"C01", "C05", "C19"})
